@@ -36,6 +36,7 @@ type RuleSpec struct {
 	Additional []RuleSpec        `json:"additional,omitempty"`
 	Invalid    string            `json:"invalid,omitempty"` // why the reference recogniser rejects it ("" = valid)
 	Conflict   bool              `json:"conflict,omitempty"` // deliberately the same verb+template as an earlier rule of another method
+	Long       bool              `json:"long,omitempty"`     // well-formed but beyond larking's documented token budget: accepted or refused with an error, never a panic
 	Path       string            `json:"path,omitempty"`    // a path instantiated from the template
 	Want       map[string]string `json:"want,omitempty"`    // field path -> text the path binds to it
 }
@@ -87,6 +88,9 @@ var c16Methods = []c16Method{
 	{tsvc, "UnaryCall", []string{"payload", "response_status"}},
 	{tsvc, "EmptyCall", nil},
 	{svcFiles, "UploadDownload", []string{"file"}},
+	// two methods with the same short name in different services
+	{"larking.testpb.Complex", "Check", nil},
+	{"larking.testpb.WellKnown", "Check", nil},
 }
 
 func methodDesc(service, name string) protoreflect.MethodDescriptor {
@@ -324,19 +328,34 @@ func genC16(r *core.Rand, run int) *MuxScenario {
 		case 5: // the same verb and template bound to a different method: a conflict
 			if len(sc.Rules) > 0 {
 				prev := sc.Rules[r.Intn(len(sc.Rules))]
-				if prev.Invalid == "" && prev.Selector != rule.Selector && !strings.Contains(prev.Template, "{") && (prev.Body == "*" || prev.Body == "") && prev.RespBody == "" {
+				if prev.Invalid == "" && !prev.Long && prev.Selector != rule.Selector && !strings.Contains(prev.Template, "{") && (prev.Body == "*" || prev.Body == "") && prev.RespBody == "" {
 					rule.Verb, rule.Template, rule.Body = prev.Verb, prev.Template, prev.Body
 					rule.Path, rule.Want = "", nil
 					rule.Conflict = true
 				}
 			}
+		case 7: // a very long (well-formed) template: around and beyond the lexer's 64-token budget
+			n := 26 + r.Intn(16)
+			t := "/r" + strconv.Itoa(i+1)
+			for k := 1; k < n; k++ {
+				switch r.Intn(6) {
+				case 0:
+					t += "/*"
+				default:
+					t += "/" + literals[r.Intn(len(literals))]
+				}
+			}
+			if r.Chance(1, 3) {
+				t += ":" + r.PickS("v", "cancel")
+			}
+			rule = RuleSpec{Selector: rule.Selector, Verb: "get", Template: t, Long: true}
 		case 6: // re-declare the implicit /Service/Method path for the same method
 			rule = RuleSpec{Selector: rule.Selector, Verb: "post", Body: "*", Template: "/" + m.Service + "/" + m.Name, Path: "/" + m.Service + "/" + m.Name, Want: map[string]string{}}
 		}
 		sc.Rules = append(sc.Rules, rule)
 	}
 	// the history of registrations, onto an empty or a non-empty mux
-	svcs := []string{svcMessaging, tsvc, svcFiles}
+	svcs := []string{svcMessaging, tsvc, svcFiles, "larking.testpb.Complex", "larking.testpb.WellKnown"}
 	if r.Chance(1, 3) {
 		sc.Pre = []RegOp{{Kind: "regsvc", Target: "local", Service: "larking.testpb.ChatRoom"}}
 	}
@@ -380,6 +399,16 @@ func newRuleModel(sc *MuxScenario) *ruleModel {
 func serviceOf(selector string) string { return selector[:strings.LastIndex(selector, ".")] }
 
 // wouldAccept is the reference recogniser's verdict on registering service.
+// hasLong: the service carries a rule whose verdict the model does not predict.
+func (m *ruleModel) hasLong(service string) bool {
+	for _, rule := range m.sc.Rules {
+		if serviceOf(rule.Selector) == service && rule.Long {
+			return true
+		}
+	}
+	return false
+}
+
 func (m *ruleModel) wouldAccept(service string) (bool, string) {
 	bound := map[binding]string{}
 	for k, v := range m.bound {
@@ -433,12 +462,15 @@ func (m *ruleModel) probes() []ReqSpec {
 	var out []ReqSpec
 	for i := range m.live {
 		b := m.live[i]
+		if m.hasLong(serviceOf(b.Selector)) {
+			continue
+		}
 		sp := ReqSpec{Proto: "http", Codec: "json", Method: "raw", Weight: 2,
 			Raw: &RawProbe{Verb: b.httpMethod(), Path: b.Path, Selector: b.Selector, Want: b.Want, HasBody: b.Body != ""}}
 		out = append(out, sp)
 	}
 	for _, cm := range c16Methods {
-		if m.accepted[cm.Service] {
+		if m.accepted[cm.Service] && !m.hasLong(cm.Service) {
 			out = append(out, ReqSpec{Proto: "http", Codec: "json", Method: "raw", Weight: 2,
 				Raw: &RawProbe{Verb: "POST", Path: "/" + cm.Service + "/" + cm.Name, Selector: cm.Service + "." + cm.Name, HasBody: true}})
 		}
@@ -544,6 +576,11 @@ func oracleRules(mr *muxRun, res *RunResult) *Violation {
 			return violationf(prop, "operation-never-returned", "regsvc", "registration %d did not return", k)
 		}
 		want, why := model.wouldAccept(rr.Op.Service)
+		if want && model.hasLong(rr.Op.Service) {
+			// beyond the token budget either verdict is fine (an error, never a
+			// panic - checked above); the model follows what happened
+			want, why = rr.Err == nil, "long template refused"
+		}
 		ctx := "accept"
 		if !want {
 			ctx = "reject:" + strings.SplitN(why, " ", 2)[0]
@@ -559,7 +596,9 @@ func oracleRules(mr *muxRun, res *RunResult) *Violation {
 				return violationf(prop, "failed-registration-changed-state", ctx, "the rejected RegisterService(%s) (%v) changed the published routing state:\n  before %s\n  after  %s", rr.Op.Service, rr.Err, abbreviate(rr.FPBefore, 500), abbreviate(rr.FPAfter, 500))
 			}
 		}
-		model.register(rr.Op.Service)
+		if want {
+			model.register(rr.Op.Service)
+		}
 		// probes of this round
 		for _, rs := range mr.reqs {
 			if rs.spec.Round != k+1 {
